@@ -603,6 +603,10 @@ func (w *World) checkLocked() {
 // emitEvent distributes an event to the [observerManager].
 func (w *World) emitEvent(e *Event, entity Entity) {
 	if !w.storage.observers.HasObservers(e.eventType) {
+		// Reject dead entities also if there is no observer to notify.
+		if !entity.IsZero() && !w.Alive(entity) {
+			panic("can't emit an event for a dead entity")
+		}
 		return
 	}
 	w.emitEventSlowPath(e, entity)
